@@ -23,7 +23,7 @@ LEVEL = "exploration"
 DESIGN_REF = "DESIGN.md 4/C14"
 RULE = (
     "case = (D, D', extent, container, value, direction): field lists over {uint8, uint3, uint16[<=2], bool} of length <=3 "
-    "(thorough: plus int16 and a nested sealed struct, length <=3), every pair where one list is a proper prefix of the other, "
+    "(thorough: plus int16 and a nested sealed struct, length <=3), lists of length <=2 also over byte/utf8 arrays and members that are delimited themselves, every pair where one list is a proper prefix of the other, "
     "common extent in {min, min+16}; containers: D itself (with header), middle field between sub-byte fields, element of "
     "D[2] and D[<=2], union variant, field of another delimited type; every value of V(container). Non-trivial iff D != D'; "
     "distinct by canonical hash of the whole tuple"
@@ -35,13 +35,15 @@ ASSUMPTIONS = [
 A4 = [["uint", 8, "s"], ["uint", 3, "s"], ["varr", ["uint", 16, "s"], 2], ["bool"]]
 A6 = A4 + [["int", 16], ["struct", [["bool"], ["uint", 8, "s"]]]]
 A8 = A4 + [["farr", ["byte"], 2], ["varr", ["utf8"], 2], ["farr", ["uint", 8, "s"], 2], ["varr", ["byte"], 3]]  # byte / text arrays (bulk read paths)
+_E = ["delim", ["struct", [["uint", 16, "s"]]], 64]
+AD = [_E, ["struct", [_E]], ["farr", _E, 2], ["union", [_E, ["bool"]]]]  # appended members that are delimited themselves (their headers are zero-extended too)
 NAMINGS = ["distinct", "same-name-next-minor", "same-name-same-version"]
 
 
 def pairs(tier):
     alpha = A4 if tier == "quick" else A6
     seen = set()
-    for n, al in [(1, A8), (2, A8), (3, alpha)] + ([(3, A8)] if tier != "quick" else []):
+    for n, al in [(1, A8 + AD), (2, A8 + AD[:2]), (3, alpha)] + ([(3, A8)] if tier != "quick" else []):
         for long in itertools.product(al, repeat=n):
             if T.key(list(long)) in seen:
                 continue
